@@ -26,6 +26,13 @@ Proof. vm_compute. reflexivity. Qed.
 Lemma gen_rep_spec : gen_repair_counts_writers = true.
 Proof. vm_compute. reflexivity. Qed.
 
+(* every read-modify-write of chunk records runs under chunk_lock (F-C19-rc repaired): store_chunk,
+   the publish step of finish, delete_artifact, gc_cycle's per-chunk test-and-delete, full_gc, repair *)
+Lemma gen_locked_spec : forall f, In f [0; 1; 2; 3; 4; 5] -> gen_locked f = true.
+Proof.
+  intros f Hf. cbn [In] in Hf. repeat (destruct Hf as [<-|Hf]); [..|contradiction]; vm_compute; reflexivity.
+Qed.
+
 (* ------------------------------------------------------------------ the main theorems of Proofs.v,
    instantiated with the regenerated definitions (Props.v pins these statements) *)
 Notation grun hash cs min_age :=
@@ -113,3 +120,13 @@ Qed.
 Lemma g_verify_missing (hash : list N -> N) s id ar k :
   aget (arts s) id = Some ar -> In k (achunks ar) -> verify hash (remove_chunk s k) id = RErr E_CHUNKMISSING.
 Proof. exact (verify_reports_missing hash (fun _ _ => 0) 0 s id ar k). Qed.
+
+(* every schedule of every set of client programs: an instance of g_reads *)
+Lemma g_any_schedule hash cs min_age (threads : list (list op)) (sched : list nat) : (0 < cs)%nat ->
+  let ops := interleave threads sched in
+  let s := grun hash cs min_age init ops in
+  (exists x y, In x (seen s) /\ In y (seen s) /\ x <> y /\ hash x = hash y)
+  \/ forall id,
+       get s id = sget (srun sinit ops) id /\
+       verify hash s id = match aget (sarts (srun sinit ops)) id with Some _ => RBool true | None => RErr E_NOTFOUND end.
+Proof. intros Hcs. exact (g_reads hash cs min_age (interleave threads sched) Hcs). Qed.
